@@ -286,9 +286,21 @@ func runC22(c *core.Ctx) {
 	}
 	// key: PutRequest(service, merkleValue.TxHash, params.ToChainID, bytes)
 	a := prs[0].Common().Args
-	_, f1, ok1 := fieldLoad(a[1])
+	b1, f1, ok1 := fieldLoad(a[1])
 	_, f2, ok2 := fieldLoad(a[2])
-	c.Decide(ok1 && f1 == "TxHash" && ok2 && f2 == "ToChainID", "C22.key", fn, "PutRequest(txHash = merkleValue.TxHash, chain = params.ToChainID)", c.P.Rel(prs[0].Pos()), f1+","+f2)
+	// the hash must be the RELAY transaction hash held in the ToMerkleValue being stored, not the message's source-side TxHash
+	okRelay := ok1 && f1 == "TxHash" && typeNamed(b1, "ToMerkleValue")
+	c.Decide(okRelay && ok2 && f2 == "ToChainID", "C22.key", fn, "PutRequest(txHash = merkleValue.TxHash (relay tx hash), chain = params.ToChainID)", c.P.Rel(prs[0].Pos()), f1+","+f2)
+	// the key announced to relayers is built from the same two values
+	for _, ci := range ir.Calls(fn, func(ci ssa.CallInstruction) bool { o := ir.CalleeObj(ci); return o != nil && o.Name() == "ConcatKey" }) {
+		okAnn := false
+		for _, e := range eng.VariadicElems(ci.Common().Args[len(ci.Common().Args)-1]) {
+			if bb, ff, okk := fieldLoad(e); okk && ff == "TxHash" && typeNamed(bb, "ToMerkleValue") {
+				okAnn = true
+			}
+		}
+		c.Decide(okAnn, "C22.key", fn, "the request key announced in the makeProof event carries the relay tx hash", c.P.Rel(ci.Pos()), "")
+	}
 	if pf := c.Fn(pkCCM, "PutRequest"); pf != nil {
 		ks, err := eng.KeySitesIn(c.P, pf, 2)
 		if err != nil || len(ks) != 1 {
